@@ -138,7 +138,8 @@ def body_marks(view, f, published_only=True):
                 tag = ("grow", comp, ev)
             elif how in ("call:swap_remove", "call:pop", "call:remove"):
                 tag = ("shrink", comp, ev)
-            elif how in ("call:clear", "call:truncate", "call:drain", "call:clone_from", "call:clone_into"):
+            elif how in ("call:clear", "call:truncate", "call:drain", "call:clone_from", "call:clone_into",
+                         "call:std::mem::swap", "call:std::mem::replace", "call:std::mem::take"):
                 # the whole table is replaced (emptied, or overwritten by a copy of another store's table): all four
                 # components must be replaced together
                 tag = ("whole", comp, ev)
@@ -151,7 +152,9 @@ def body_marks(view, f, published_only=True):
                         tag = ("grow", "size", ev)
                     elif d == "-1":
                         tag = ("shrink", "size", ev)
-                    elif d in ("=0", "=maplen"):
+                    elif d == "=maplen":
+                        tag = ("syncsize", ev)
+                    elif d == "=0":
                         tag = ("whole", "size", ev)
                     elif d == "=counter":
                         tag = ("noop",)
@@ -241,6 +244,18 @@ def make_step(view, f, published):
             if retain and c != "map":
                 # re-creating the tables after retain: handled by the retain pattern check; count it
                 pass
+        elif k == "syncsize":
+            # `size = map.len()`: part of a re-creation (after retain / a whole-map replacement), or - when the size has been
+            # lagging behind a growth / shrink of the map - what brings it level with the map again
+            if retain or whole != ZERO:
+                whole = bump(whole, "size")
+            elif grow == ZERO and shr == ZERO:
+                pass   # nothing is pending: the invariant says size == map.len() already
+            else:
+                g, sh = list(grow), list(shr)
+                g[IDX["size"]] = g[IDX["map"]]
+                sh[IDX["size"]] = sh[IDX["map"]]
+                grow, shr = norm4(tuple(g)), norm4(tuple(sh))
         elif k == "retain":
             retain = True
         elif k == "badsize":
@@ -317,6 +332,8 @@ def retain_pattern_ok(view, f):
             end[0] == "call" and end[1].endswith("::len") and end[2] and component(end[2][0]) and component(end[2][0])[0] == "map"))
         ok = "collect" in names and "map" in names and has_ctor and rng and const_int(strip(rng[0][3][0])) == 0 and end_ok
         if not ok:
+            ok = identity_push_loop(view, f, whole[c], ctor)
+        if not ok:
             return False, "%s must be re-created as the identity table (0..size).map(%s).collect() (found %s)" % (c, ctor, term_str(v)[:90])
     # the guard: re-creation may be skipped only when map.len() == size
     blocks = {whole[c]["bb"] for c in whole}
@@ -339,6 +356,53 @@ def retain_pattern_ok(view, f):
     if p is None:
         return True, "tables re-created unconditionally"
     return False, "a path after retain skips the re-creation under an unrecognised guard: %s" % p
+
+
+def identity_push_loop(view, f, ev, ctor):
+    """the table is assigned a local vector that was filled by `for k in 0..n { v.push(Ctor(k)) }` with n = map.len() / size
+    (the loop form of `(0..n).map(Ctor).collect()`)"""
+    vp = view.vp
+    st = f.blocks[ev["bb"]]["stmts"][ev["si"]] if isinstance(ev.get("si"), int) else None
+    if st is None or st["rv"]["k"] != "use" or st["rv"]["op"]["k"] not in ("move", "copy") or st["rv"]["op"]["place"]["proj"]:
+        return False
+    L = st["rv"]["op"]["place"]["local"]
+    ds = f.defs.get(L, [])
+    hops = 0
+    while len(ds) == 1 and ds[0][0] == "stmt" and ds[0][3]["rv"]["k"] == "use" and ds[0][3]["rv"]["op"]["k"] in ("move", "copy") \
+            and not ds[0][3]["rv"]["op"]["place"]["proj"] and hops < 4:
+        L = ds[0][3]["rv"]["op"]["place"]["local"]
+        ds = f.defs.get(L, [])
+        hops += 1
+    if len(ds) != 1 or ds[0][0] != "call" or ds[0][2].get("func", {}).get("name") not in ("with_capacity", "new"):
+        return False
+    pushes = []
+    for bb, t in f.calls():
+        if "func" not in t or t["func"]["name"] != "push" or len(t["args"]) != 2:
+            continue
+        a0 = t["args"][0]
+        if a0["k"] not in ("copy", "move") or a0["place"]["proj"]:
+            continue
+        d0 = f.defs.get(a0["place"]["local"], [])
+        if len(d0) == 1 and d0[0][0] == "stmt" and d0[0][3]["rv"]["k"] == "ref" and d0[0][3]["rv"]["place"]["local"] == L and not d0[0][3]["rv"]["place"]["proj"]:
+            pushes.append((bb, t))
+    if len(pushes) != 1:
+        return False
+    bb, t = pushes[0]
+    lp = f.cfg.in_loop(bb)
+    if not lp:
+        return False
+    v = strip(vp.operand(f, t["args"][1]))
+    if not (v[0] == "adt" and v[1].endswith("::" + ctor) and len(v[3]) == 1):
+        return False
+    k = strip(v[3][0])
+    rng = [x for x in walk(k) if x[0] == "adt" and x[1].endswith("Range") and len(x[3]) == 2]
+    nxt = any(x[0] == "call" and x[1].endswith("::next") for x in walk(k))
+    if not (rng and nxt and k[0] in ("some", "field", "downcast")):
+        return False
+    end = strip(rng[0][3][1])
+    end_ok = (component(end) and component(end)[0] == "size") or (
+        end[0] == "call" and end[1].endswith("::len") and end[2] and component(end[2][0]) and component(end[2][0])[0] == "map")
+    return bool(const_int(strip(rng[0][3][0])) == 0 and end_ok)
 
 
 def absent_key_guard(view, f, ev):
@@ -651,7 +715,21 @@ def r_repair(ctx, view):
                        "a path from %s.swap_remove to the return skips the repair guard `%s.0 < size`: %s" % (e["comp"], term_str(k)[:40], path_lines(f, p)))
                 continue
             # true side repairs: every path from true_t to the return/join passes an element write ... unless it rejoins at false_t first
-            joined = f.cfg.escape_path(gb, elem_blocks, stop_edges={(gb, false_t)}, targets=set(f.cfg.returns) | {false_t})
+            # inside the guard a checked access to a table (`if let Some(slot) = qp.get_mut(i)`) is the checked spelling of the
+            # unchecked one: its failing edge is not a way around the repair (R-PRIM compares the index used)
+            from .core import edge_presence as _ep
+            stops = {(gb, false_t)}
+            for bi2 in sorted(f.cfg.reach):
+                t2 = f.term(bi2)
+                if t2["k"] != "switch" or len(f.cfg.succ[bi2]) < 2:
+                    continue
+                d2 = strip(vp.operand(f, t2["discr"]))
+                if d2[0] == "discr" and any(x[0] == "call" and x[1].split("::")[-1] in ("get", "get_mut") and x[2] and component(x[2][0])
+                                            and component(x[2][0])[0] in ("heap", "qp") for x in walk(d2)):
+                    for nb in f.cfg.succ[bi2]:
+                        if _ep(d2, t2, nb) == "absent":
+                            stops.add((bi2, nb))
+            joined = f.cfg.escape_path(gb, elem_blocks, stop_edges=stops, targets=set(f.cfg.returns) | {false_t})
             ok = joined is None or true_t in elem_blocks
             ctx.ob("R-REPAIR", key, ok, f.loc(e["span"]),
                    "guard `%s.0 < size` reached on every path; its true side re-links the moved entry" % term_str(k)[:40] if ok else
@@ -768,8 +846,8 @@ def r_growval(ctx, view, only=None):
         def growth_blocks(comp):
             out = set()
             for e in evs:
-                if comp == "size" and e["kind"] == "tw" and e["comp"] == "size":
-                    out.add(e["bb"])
+                if comp == "size" and e["kind"] == "tw" and e["comp"] == "size" and e.get("how") == "whole" and size_delta(view, f, e) in ("+1", "other"):
+                    out.add(e["bb"])   # (a whole-store exchange or a reset is not growth)
                 if comp == "map" and e["kind"] == "mw" and e.get("mclass") == "grow":
                     out.add(e["bb"])
                 if comp in ("heap", "qp") and e["kind"] == "tw" and e["comp"] == comp and e.get("how") == "call:push":
